@@ -66,7 +66,9 @@ def build_element(el):
                                                               data_element_id="1234", **kw)
     return (UserValuePool if sub else DataElementValuePool)(
         discriminator=el["id"], data_element_id="0333", entered_input=el["input"],
-        value_pool=[ValuePoolEntry(qualifier=e["q"], meaning="Bedeutung " + e["q"], ahb_expression=e["expr"]) for e in el["entries"]],
+        # the meaning of a qualifier is free text and may be empty
+        value_pool=[ValuePoolEntry(qualifier=e["q"], meaning=e.get("meaning", "" if _alt(e["q"] + el["id"]) else "Bedeutung " + e["q"]),
+                                   ahb_expression=e["expr"]) for e in el["entries"]],
     )
 
 
